@@ -2,9 +2,11 @@
 # runs every registered check of a tier and prints a one-line summary per property
 TIER="${1:-quick}"
 cd "$(dirname "$0")"
+mkdir -p .work
 for p in C01 C02 C03 C04 C05 C06 C07 C08 C09 C10 C11 C12 C13 C14 C15 C16 C17 C18 C19 C20; do
   s=$(date +%s)
   ./check $p $TIER > .work/runall_$p.log 2>&1; code=$?
   e=$(( $(date +%s) - s ))
-  echo "$p $TIER exit=$code ${e}s known=$(grep -c '^KNOWN-FINDING' .work/runall_$p.log) violations=$(grep -c '^VIOLATION' .work/runall_$p.log) $(grep -h 'signature:' .work/runall_$p.log | head -3 | tr '\n' ' ')"
+  echo "$p $TIER exit=$code ${e}s known=$(grep -c '^KNOWN-FINDING' .work/runall_$p.log) violations=$(grep -c '^VIOLATION' .work/runall_$p.log) $(grep -h 'signature:' .work/runall_$p.log | head -40 | tr '\n' ' ')"
+  grep -hE 'machinery|MACHINERY|error' .work/runall_$p.log | head -5
 done
